@@ -29,20 +29,20 @@ fn debug_names(e: Effects) -> Vec<String> {
 fn eff_event(a: u32, bs: &[u32]) -> Value {
     let ea = effects_from_bits(a as u16);
     let mut res = serde_json::Map::new();
-    let ops: [(&str, Box<dyn Fn(Effects, Effects) -> u32>); 7] = [
+    let ops: [(&str, Box<dyn Fn(Effects, Effects) -> u32>); 9] = [
         ("insert", Box::new(|x, y| bits_of(x.insert(y)))),
-        ("or", Box::new(|x, y| {
+        ("or", Box::new(|x, y| bits_of(x | y))),
+        ("or_assign", Box::new(|x, y| {
             let mut z = x;
             z |= y;
-            assert_eq!(bits_of(z), bits_of(x | y));
-            bits_of(x | y)
+            bits_of(z)
         })),
         ("remove", Box::new(|x, y| bits_of(x.remove(y)))),
-        ("sub", Box::new(|x, y| {
+        ("sub", Box::new(|x, y| bits_of(x - y))),
+        ("sub_assign", Box::new(|x, y| {
             let mut z = x;
             z -= y;
-            assert_eq!(bits_of(z), bits_of(x - y));
-            bits_of(x - y)
+            bits_of(z)
         })),
         ("set1", Box::new(|x, y| bits_of(x.set(y, true)))),
         ("set0", Box::new(|x, y| bits_of(x.set(y, false)))),
